@@ -13,6 +13,11 @@
 #[verifier::external_type_specification]
 #[verifier::external_body]
 pub struct ExIoError(std::io::Error);
+use std::io::ErrorKind;
+#[verifier::external_type_specification]
+#[verifier::external_body]
+pub struct ExErrorKind(std::io::ErrorKind);
+pub assume_specification[ std::io::Error::kind ](e: &std::io::Error) -> std::io::ErrorKind;
 
 pub trait Unpin {}
 impl<T> Unpin for T {}
